@@ -30,6 +30,7 @@ type C20Op struct {
 	AD     bool   `json:"ad,omitempty"`
 	PTROf  int    `json:"ptr_of,omitempty"` // 1-based index of the op whose first synthesised address is reversed
 	GapMs  int    `json:"gap_ms"`
+	Upper  uint32 `json:"upper,omitempty"` // letter-case mask of the question name as sent (0x20 mixing)
 }
 
 type C20Fault struct {
@@ -109,6 +110,9 @@ func genC20(r *kit.RNG) *C20Scenario {
 			op.PTROf = r.Range(1, i)
 			op.Name = "placeholder.ip6.arpa."
 		}
+		if r.Chance(0.25) {
+			op.Upper = uint32(r.Uint64())
+		}
 		sc.Ops = append(sc.Ops, op)
 	}
 	if r.Chance(0.6) {
@@ -119,6 +123,24 @@ func genC20(r *kit.RNG) *C20Scenario {
 		}
 	}
 	return sc
+}
+
+// c20Case spells name with the letters selected by mask in upper case.
+func c20Case(name string, mask uint32) string {
+	if mask == 0 {
+		return name
+	}
+	b := []byte(name)
+	k := 0
+	for j := range b {
+		if b[j] >= 'a' && b[j] <= 'z' {
+			if mask>>uint(k%32)&1 == 1 {
+				b[j] -= 32
+			}
+			k++
+		}
+	}
+	return string(b)
 }
 
 func c20Spec(sc *C20Scenario) *world.Spec {
@@ -352,7 +374,7 @@ func execC20(sc *C20Scenario, tr *kit.Trace, res *kit.Result) {
 			name = rev
 		}
 		q := new(dns.Msg)
-		q.SetQuestion(name, op.Type)
+		q.SetQuestion(c20Case(name, op.Upper), op.Type)
 		q.RecursionDesired = !op.NoRD
 		q.CheckingDisabled = op.CD
 		q.AuthenticatedData = op.AD
